@@ -216,8 +216,29 @@ def run_program(rec, hub, seed_rng, steps, letters="abcd", ill_rate=0.3, props=(
                 last = (slice(None),) + tuple(n_ - 1 for n_ in shp[1:])  # the LAST label combination
                 guess = fd.StockArray(dims=ds_c, values=np.full(shp, 7.0))
                 sv = np.cumsum(np.abs(gen.values_one("dyadic", rng, shp)) + 1.0, axis=0)
-                how = int(rng.integers(0, 4))
+                how = int(rng.integers(0, 6))
                 solver = str(rng.choice(["lapack", "manual"]))
+                if how >= 4:
+                    # a time dimension of one or two steps (interval lengths cannot be derived from it) or with labels that are no numbers
+                    t_short = fd.Dimension(letter="t", name=Ut["t"].name, items=[[2020], [2020, 2030], ["early", "mid", "late"]][int(rng.integers(0, 3))])
+                    ds_s = fd.DimensionSet(dim_list=[t_short] + [d_ for d_ in ds_c if d_.letter != "t"])
+                    shp_s = ds_s.shape
+                    g_ = lambda: fd.StockArray(dims=ds_s, values=np.full(shp_s, 7.0))
+                    ones_ = lambda f_: fd.StockArray(dims=ds_s, values=np.full(shp_s, f_))
+                    if how == 4:
+                        mk_short = lambda: fd.SimpleFlowDrivenStock(dims=ds_s, inflow=ones_(3.0), outflow=ones_(1.0), stock=g_(), time_letter="t")
+                    else:
+                        mk_short = lambda: fd.InflowDrivenDSM(dims=ds_s, inflow=ones_(3.0), stock=g_(), outflow=g_(), lifetime_model=fd.NormalLifetime(dims=ds_s, time_letter="t", mean=4.0, std=1.0), time_letter="t")
+
+                    def failing_short():
+                        s_ = mk_short()
+                        try:
+                            s_.compute()
+                        except Exception:
+                            pass
+                        return [s_.stock, s_.inflow, s_.outflow]
+
+                    return (f"stock: compute over a time dimension too short or not numeric ({how})", None, [failing_short])
                 if how == 0:  # a gap in the data of the last label
                     sv[(int(rng.integers(0, shp[0])),) + last[1:]] = np.nan
                     mk_ = lambda: fd.StockDrivenDSM(dims=ds_c, stock=fd.StockArray(dims=ds_c, values=sv), inflow=guess, lifetime_model=fd.NormalLifetime(dims=ds_c, time_letter="t", mean=4.0, std=1.5), solver=solver, time_letter="t")
@@ -239,12 +260,14 @@ def run_program(rec, hub, seed_rng, steps, letters="abcd", ill_rate=0.3, props=(
                     return [s_.stock, s_.inflow, s_.outflow]
 
                 return (f"stock: compute that cannot succeed ({how}, {solver})", None, [failing_compute])
+            # the ill-dimensioned array may be of any array class (a Parameter, a plain FlodymArray ...), not only a StockArray
+            acls = [fd.StockArray, fd.StockArray, fd.Parameter, fd.FlodymArray][int(rng.integers(0, 4))]
             if c == 0 and len(sl) > 1:  # array with permuted dims
-                bad = fd.StockArray(dims=fd.DimensionSet(dim_list=[Ut[l] for l in sl[::-1]]))
-                return ("stock: inflow dims permuted", None, [lambda: fd.SimpleFlowDrivenStock(dims=ds, inflow=bad, time_letter="t")])
+                bad = acls(dims=fd.DimensionSet(dim_list=[Ut[l] for l in sl[::-1]]))
+                return (f"stock: inflow dims permuted ({acls.__name__})", None, [lambda: fd.SimpleFlowDrivenStock(dims=ds, inflow=bad, time_letter="t")])
             if c == 1:  # array lacking a dim / extra dim
-                bad = fd.StockArray(dims=fd.DimensionSet(dim_list=[Ut[l] for l in sl[:-1]] if len(sl) > 1 else [Ut["t"], U[letters[0]]]))
-                return ("stock: stock dims differ", None, [lambda: fd.InflowDrivenDSM(dims=ds, stock=bad, lifetime_model=fd.NormalLifetime, time_letter="t")])
+                bad = acls(dims=fd.DimensionSet(dim_list=[Ut[l] for l in sl[:-1]] if len(sl) > 1 else [Ut["t"], U[letters[0]]]))
+                return (f"stock: stock dims differ ({acls.__name__})", None, [lambda: fd.InflowDrivenDSM(dims=ds, stock=bad, lifetime_model=fd.NormalLifetime, time_letter="t")])
             if c == 2 and len(sl) > 1:  # time not first
                 ds2 = fd.DimensionSet(dim_list=[Ut[l] for l in sl[1:] + sl[:1]])
                 return ("stock: time not first", None, [lambda: fd.SimpleFlowDrivenStock(dims=ds2, time_letter="t")])
